@@ -1,5 +1,6 @@
 import SimVerif.Gen.LStoreMap
 import SimVerif.Model.Store
+import SimVerif.Props.C11
 /-!
 # Tie (DESIGN.md 14.11): the map operations of `TrackStore` as the Rust source has them now
 (`add_track`, `fetch_tracks`, `shard_stats`, `get_executor`; regenerated on every run — the guard returned by `get_store(id)` is a
@@ -94,5 +95,127 @@ theorem tie_store_shard_stats (s : Store TA M OA) : store_shard_stats s.shards =
 
 /-- placement: a track id is served by shard `id % n` -/
 theorem tie_store_get_executor (s : Store TA M OA) (id : Nat) : store_get_executor s.n id = shardOf s id := rfl
+
+/-! ### `TrackStore::add` (an observation by track id) -/
+
+theorem shGet_shPut {β : Type} (sh : List (Nat × β)) (id id' : Nat) (v : β) :
+    shGet (shPut sh id v) id' = if id' = id then some v else shGet sh id' := by
+  induction sh with
+  | nil =>
+    by_cases h : id' = id
+    · subst h; simp [shPut, shGet]
+    · have : ¬ id = id' := fun hh => h hh.symm
+      simp [shPut, shGet, h, this]
+  | cons p rest ih =>
+    unfold shPut
+    by_cases hp : (p.1 == id) = true
+    · have hpid : p.1 = id := by simpa using hp
+      simp only [hp, if_true]
+      by_cases h : id' = id
+      · subst h; simp [shGet]
+      · have h1 : ¬ id = id' := fun hh => h hh.symm
+        have h2 : ¬ p.1 = id' := fun hh => h (hh.symm.trans hpid)
+        simp [shGet, h, h1, h2]
+    · have hp' : (p.1 == id) = false := Bool.eq_false_iff.mpr hp
+      simp only [hp', Bool.false_eq_true, if_false]
+      by_cases hq : (p.1 == id') = true
+      · have : ¬ id' = id := fun hh => hp (by simpa [hh] using hq)
+        simp [shGet, List.find?_cons, hq, this]
+      · have hq' : (p.1 == id') = false := Bool.eq_false_iff.mpr hq
+        have := ih
+        unfold shGet at this ⊢
+        simp only [List.find?_cons, hq']
+        exact this
+
+theorem shGet_shInsert {β : Type} (sh : List (Nat × β)) (id id' : Nat) (v : β) :
+    shGet (shInsert sh id v) id' = if id' = id then some v else shGet sh id' := by
+  unfold shInsert shGet
+  rw [List.find?_append]
+  by_cases h : id' = id
+  · subst h
+    have : (sh.filter (fun p => !(p.1 == id'))).find? (fun p => p.1 == id') = none := by
+      rw [List.find?_eq_none]; intro p hp; simp only [List.mem_filter] at hp; simpa using hp.2
+    simp [this]
+  · have h1 : ¬ id = id' := fun hh => h hh.symm
+    have hf : (sh.filter (fun p => !(p.1 == id))).find? (fun p => p.1 == id') = sh.find? (fun p => p.1 == id') := by
+      induction sh with
+      | nil => rfl
+      | cons p rest ih =>
+        by_cases hp : (p.1 == id) = true
+        · have hpi : p.1 = id := by simpa using hp
+          have hq : (p.1 == id') = false := by
+            rw [hpi]; simpa using h1
+          simp only [List.filter_cons, hp, Bool.not_true, Bool.false_eq_true, if_false, List.find?_cons, hq]
+          exact ih
+        · have hp' : (p.1 == id) = false := Bool.eq_false_iff.mpr hp
+          simp only [List.filter_cons, hp', Bool.not_false, if_true, List.find?_cons]
+          cases (p.1 == id') <;> simp [ih]
+    simp [hf, h, h1]
+
+/-- lookup in the shards after one shard was replaced -/
+theorem getD_set {β : Type} (l : List (List β)) (k k' : Nat) (x : List β) :
+    (l.set k x).getD k' [] = if k' = k ∧ k < l.length then x else l.getD k' [] := by
+  simp only [List.getD_eq_getElem?_getD, List.getElem?_set]
+  by_cases h : k = k'
+  · subst h
+    by_cases hl : k < l.length
+    · simp [hl]
+    · simp [hl]
+  · have : ¬ k' = k := fun hh => h hh.symm
+    simp [h, this]
+
+/-- **`TrackStore::add`**: the answer is the model's, and afterwards every id is looked up to the same track as in the model
+(the source updates an existing track in place, the model re-inserts it: as maps they are the same). A missing id is created
+through the builder — exactly as building the track externally and inserting it; an existing track gets the observation through
+`Track::add_observation`, and since that is atomic (`C11_add_atomic`) a refused observation leaves the store as it was -/
+theorem tie_store_add {U Q : Type} (cb : Cb TA M OA U Q E) {A F : Type} (obsOf : Option A → Option F → Option OA)
+    (s : Store TA M OA) (id cls : Nat) (fa : Option A) (f : Option F) (u : Option U) :
+    let g := store_add
+      (fun (x : Nat × Nat × Option A × Option F × Option U) => (build cb x.1 s.defMetric s.defAttrs [(x.2.1, obsOf x.2.2.1 x.2.2.2.1, x.2.2.2.2)]).1)
+      (fun t c fa f u => ((addObservation cb t c (obsOf fa f) u).1, (addObservation cb t c (obsOf fa f) u).2.1))
+      s.n s.shards id cls fa f u
+    let m := add cb s id cls (obsOf fa f) u
+    g.1 = m.1 ∧ ∀ id', shGet (lstGetD g.2 (id' % s.n)) id' = find m.2.1 id' := by
+  intro g m
+  simp only [g, m, store_add, add]
+  have hfind : shGet (lstGetD s.shards (id % s.n)) id = find s id := rfl
+  rw [hfind]
+  cases hf : find s id with
+  | none =>
+    simp only []
+    cases hb : build cb id s.defMetric s.defAttrs [(cls, obsOf fa f, u)] with
+    | mk r k =>
+      cases r with
+      | error e => exact ⟨rfl, fun id' => rfl⟩
+      | ok t => exact ⟨rfl, fun id' => rfl⟩
+  | some t =>
+    simp only []
+    cases ha : addObservation cb t cls (obsOf fa f) u with
+    | mk r rest =>
+      obtain ⟨t', k⟩ := rest
+      cases r with
+      | error e =>
+        have hat := ((C11.C11_add_atomic cb t cls (obsOf fa f) u).1 e (by rw [ha])).1
+        rw [ha] at hat
+        simp only at hat
+        subst hat
+        refine ⟨rfl, fun id' => ?_⟩
+        simp only [lstGetD, lstSet, getD_set]
+        by_cases hk : id' % s.n = id % s.n ∧ id % s.n < s.shards.length
+        · simp only [hk, and_self, if_true, shGet_shPut]
+          by_cases hid : id' = id
+          · subst hid; simp [hf, ← hfind, lstGetD]
+          · simp only [hid, if_false, find, getShard, shardOf, hk.1]; rfl
+        · simp only [hk, if_false]; rfl
+      | ok v =>
+        refine ⟨rfl, fun id' => ?_⟩
+        simp only [lstGetD, lstSet, getD_set, put, setShard, find, getShard, shardOf]
+        by_cases hk : id' % s.n = id % s.n ∧ id % s.n < s.shards.length
+        · simp only [hk, and_self, if_true, shGet_shPut]
+          have := shGet_shInsert (s.shards.getD (id % s.n) []) id id' t'
+          unfold shGet shInsert at this
+          rw [this]
+          by_cases hid : id' = id <;> simp [hid, shGet]
+        · simp only [hk, if_false]; rfl
 
 end SimVerif.Tie
